@@ -32,3 +32,4 @@ def run(prog, rep):
     from ..rules import r_io as _rio4
     _rio4.run_reclaim(prog, rep)
     _rn.run_ref_members(prog, rep)
+    _rs.run_namebuf(prog, rep)
